@@ -309,6 +309,27 @@ func runConc(seed int64, be string, maxG, opsPer int) ([][]byte, map[string]int)
 			progs[2][0] = E{"op": "Insert", "c": c, "docs": []interface{}{g.doc(AStr(g.pick(g.ids)))}}
 		}
 	}
+	// point reads against writers of the same documents: what a read returns is one of the versions that were
+	// current between its call and its return - also if it decodes what it read after its transaction has ended
+	if g.chance(0.2) || concFamily == "pointreads" {
+		for gi := 0; gi < G; gi++ {
+			for k := range progs[gi] {
+				id := g.ids[g.r.Intn(4)]
+				if gi == 0 || (gi == 1 && G > 2) {
+					progs[gi][k] = E{"op": "FindById", "c": c, "id": B(id)}
+					continue
+				}
+				switch g.r.Intn(4) {
+				case 0:
+					progs[gi][k] = E{"op": "ReplaceById", "c": c, "id": B(id), "docs": []interface{}{g.doc(AStr(id))}}
+				case 1:
+					progs[gi][k] = E{"op": "Insert", "c": c, "docs": []interface{}{g.doc(AStr(g.pick(g.ids)))}}
+				default:
+					progs[gi][k] = E{"op": "UpdateById", "c": c, "id": B(id), "upd": []interface{}{"set", B("x"), g.smallNum()}}
+				}
+			}
+		}
+	}
 	// one source of ids for every goroutine and every handle: all goroutines insert batches that leave their ids to clover
 	if g.chance(0.2) || concFamily == "ids" {
 		for gi := 0; gi < G; gi++ {
